@@ -18,5 +18,20 @@ Proof.
   split; apply covered_accepts_valid; [exact C19_single_ended_checks_cover_the_required|exact C19_double_ended_checks_cover_the_required].
 Qed.
 
+(* the refusing direction, clause by clause: an input that fails any required clause fails a check that the code reaches -
+   the clause itself - so the calibration raises instead of returning numbers; and no clause is missing from the source *)
+Theorem C19_invalid_inputs_are_refused passes r : passes r = false ->
+  (In r required_single -> In r checks_single /\ accepts passes checks_single = false) /\
+  (In r required_double -> In r checks_double /\ accepts passes checks_double = false).
+Proof.
+  intros Hp. split; intros Hr.
+  - exact (covered_invalid_refused required_single checks_single passes r C19_single_ended_checks_cover_the_required Hr Hp).
+  - exact (covered_invalid_refused required_double checks_double passes r C19_double_ended_checks_cover_the_required Hr Hp).
+Qed.
+Theorem C19_no_clause_is_missing : missing required_single checks_single = [] /\ missing required_double checks_double = [].
+Proof.
+  split; apply covered_missing_nil; [exact C19_single_ended_checks_cover_the_required|exact C19_double_ended_checks_cover_the_required].
+Qed.
+
 Print Assumptions C19_single_ended_checks_cover_the_required. Print Assumptions C19_double_ended_checks_cover_the_required.
-Print Assumptions C19_accepted_inputs_are_valid.
+Print Assumptions C19_accepted_inputs_are_valid. Print Assumptions C19_invalid_inputs_are_refused. Print Assumptions C19_no_clause_is_missing.
